@@ -217,4 +217,29 @@ theorem framesOf_rows_sorted (dfs : List TS) (n : Nat) (hs : ∀ s ∈ dfs, s.So
     simp only [ofTS, List.pairwise_map]
     simpa [TS.Sorted, TS.index, List.pairwise_map] using hs s hs'
 
+theorem assemble_many (P : List Frame) (h : 2 ≤ P.length) :
+    assemble P = some ⟨P.foldl (fun m f => max m f.width) 0,
+      P.flatMap fun f => f.rows.map fun r => (r.1, padRow (P.foldl (fun m f => max m f.width) 0) r.2)⟩ := by
+  match P, h with
+  | _ :: _ :: _, _ => rfl
+
+
+theorem pieces_eq_range (dfs : List TS) (ub : List Int) (hlen : dfs.length = ub.length) (htwo : 2 ≤ ub.length) (n : Nat) (l u : Bool) :
+    pieces dfs ub n l u = (List.range ub.length).map fun k =>
+      if hk : k < (framesOf dfs n).length then
+        (⟨(framesOf dfs n)[k].width,
+          (framesOf dfs n)[k].rows.filter fun r => inWindow l u (loBound ub k) (.date (ub.getD k 0)) r.1⟩ : Frame)
+      else default := by
+  have hne : ub ≠ [] := by intro h0; simp [h0] at htwo
+  have hpl := pieces_length dfs ub n l u hlen hne
+  have hfl := framesOf_length dfs n
+  apply List.ext_getElem
+  · simp [hpl]
+  · intro k h1 h2
+    have hk : k < ub.length := by omega
+    have hkf : k < (framesOf dfs n).length := by omega
+    rw [pieces_getElem dfs ub n l u hlen k h1 hk hkf]
+    simp [hkf, List.getD_eq_getElem?_getD, hk]
+
+
 end Pyg.Slice
